@@ -107,18 +107,24 @@ Section P.
   Qed.
 
   (* ---------- fees: the split is exact ---------- *)
+  Lemma apply_factor_range v f r : apply_factor w unit v f = Some r -> 0 <= r < 2 ^ w.
+  Proof.
+    unfold apply_factor, mul_div. destruct (unit =? 0); [discriminate|]. intros H. apply chk_u_some in H. lia.
+  Qed.
+
   Lemma apply_fees_ok fp bc amount after fs : apply_fees w unit fp bc amount = Some (after, fs) ->
     after + f_receiver fs + f_pool fs = amount /\ 0 <= after /\ 0 <= f_pool fs /\
-    in_range after /\ in_range (f_pool fs).
+    in_range after /\ in_range (f_pool fs) /\ in_range (f_receiver fs).
   Proof.
     unfold apply_fees, in_range. intros H.
     apply obind_some in H. destruct H as (f0 & _ & H).
     apply obind_some in H. destruct H as (disc & _ & H).
     apply obind_some in H. destruct H as (f1 & _ & H).
-    apply obind_some in H. destruct H as (recv & _ & H).
+    apply obind_some in H. destruct H as (recv & H0 & H).
     apply obind_some in H. destruct H as (fpool & H1 & H).
     apply obind_some in H. destruct H as (aft & H2 & H).
-    injection H as <- <-. cbn. apply usub_some in H1. apply usub_some in H2. lia.
+    injection H as <- <-. cbn. apply usub_some in H1. apply usub_some in H2.
+    apply apply_factor_range in H0. lia.
   Qed.
 
   Lemma apply_fees_receiver_nonneg fp bc amount after fs : 0 <= amount -> 0 <= fee_factor fp bc ->
